@@ -445,6 +445,18 @@ class Effects:
             elif idx in loop_index_vars(f):
                 # the bound on idx refers to the sequence being walked: another sequence must be at least as long
                 self._parallel_index(n, stmt, f, stack, sites, idx, 0)
+            elif "X:list" in self.ti.type_of(n.value, f) and not bound_guarded(f, n, idx):
+                # neighbour access through a computed position (tokens[original_index + 1])
+                sites.append(Site(f, n, stmt, "prim", stack,
+                                  excs={"IndexError": "neighbour access %s[%s] without a bound on %s" % (
+                                      ast.unparse(n.value), ast.unparse(sl), idx)}, why="lookahead"))
+        elif isinstance(sl, ast.BinOp) and isinstance(sl.op, (ast.Add, ast.Sub)) and isinstance(sl.right, ast.Constant) \
+                and "X:list" in self.ti.type_of(n.value, f):
+            nm = sl.left.id if isinstance(sl.left, ast.Name) else None
+            if nm is None or (nm not in loop_index_vars(f) and not bound_guarded(f, n, nm)):
+                sites.append(Site(f, n, stmt, "prim", stack,
+                                  excs={"IndexError": "neighbour access %s[%s] at a computed position" % (
+                                      ast.unparse(n.value), ast.unparse(sl))}, why="lookahead"))
 
     # ------------------------------------------------------------------ propagation
     def _catch(self, stack, exc):
